@@ -144,7 +144,7 @@ impl ServerInfo {
             let Some(keyword) = split.next() else {
                 continue;
             };
-            match keyword {
+            match keyword.to_ascii_uppercase().as_str() {
                 "8BITMIME" => {
                     features.insert(Extension::EightBitMime);
                 }
@@ -156,7 +156,7 @@ impl ServerInfo {
                 }
                 "AUTH" => {
                     for mechanism in split {
-                        match mechanism {
+                        match mechanism.to_ascii_uppercase().as_str() {
                             "PLAIN" => {
                                 features.insert(Extension::Authentication(Mechanism::Plain));
                             }
